@@ -208,7 +208,9 @@ func (q *queue) processACK(seq uint8) bool {
 	// If this is an ACK for something in the current queue then maybe we
 	// just missed a previous ACK. We can bump the base to be equal to this
 	// sequence number.
-	if containsSequence(q.sequenceBase, q.sequenceTop, seq) {
+	if seq < q.cfg.s &&
+		containsSequence(q.sequenceBase, q.sequenceTop, seq) {
+
 		q.cfg.log.Tracef("Sequence %d is in the queue. Bump the base.",
 			seq)
 
@@ -256,7 +258,9 @@ func (q *queue) processNACK(seq uint8) (bool, bool) {
 	}
 
 	// Is the NACKed sequence even in our queue?
-	if !containsSequence(q.sequenceBase, q.sequenceTop, seq) {
+	if seq >= q.cfg.s ||
+		!containsSequence(q.sequenceBase, q.sequenceTop, seq) {
+
 		q.cfg.log.Tracef("NACK seq %d is not in the queue. Ignoring.",
 			seq)
 		vtrace(q.timeoutManager, "nack", int(seq), 0, 0, int(q.sequenceBase))
